@@ -429,6 +429,160 @@ mod probes {
         }
     }
 
+    // ------------------------------------------------------------------------------- C14
+    mod c14 {
+        use super::*;
+        use crate::data::preprocessing::{preprocessing, Part, PreprocessingFnConfig};
+        use crate::data::{TextDataInfo, TrainData};
+        use crate::unicode::CS;
+        use crate::whitespace::{operations, repair};
+
+        /// TrainData's fields are private to crate::data; the derived Debug output is the only in-crate view of them
+        fn unescape(s: &str) -> String {
+            let mut out = String::new();
+            let mut it = s.chars().peekable();
+            while let Some(c) = it.next() {
+                if c != '\\' { out.push(c); continue; }
+                match it.next() {
+                    Some('n') => out.push('\n'), Some('r') => out.push('\r'), Some('t') => out.push('\t'), Some('0') => out.push('\0'),
+                    Some('u') => {
+                        it.next();
+                        let mut h = String::new();
+                        for d in it.by_ref() { if d == '}' { break; } h.push(d); }
+                        out.push(char::from_u32(u32::from_str_radix(&h, 16).unwrap()).unwrap());
+                    }
+                    Some(o) => out.push(o),
+                    None => {}
+                }
+            }
+            out
+        }
+        fn input_of(d: &TrainData) -> String {
+            let dbg = format!("{:?}", d);
+            let a = dbg.find("input: \"").unwrap() + 8;
+            let b = dbg.rfind("\", target: \"").unwrap();
+            unescape(&dbg[a..b])
+        }
+
+        fn nonws(s: &str, g: bool) -> Vec<String> {
+            CS::new(s, g).chars().filter(|c| !c.is_whitespace()).map(|c| c.str.to_string()).collect()
+        }
+        fn count_ws(s: &str, g: bool) -> usize { CS::new(s, g).chars().filter(|c| c.is_whitespace()).count() }
+
+        /// Is the character sequence of `out` the corrupted character sequence?  `out` is parsed against the characters of
+        /// `text` (each kept, dropped if whitespace, or preceded by one inserted space); the pieces must be exactly the
+        /// characters of `out`.  None: `out` is not a whitespace edit of `text` at all.
+        fn segmentation_preserved(text: &str, out: &str, g: bool) -> Option<bool> {
+            let mut pieces: Vec<String> = vec![];
+            let mut j = 0usize;
+            for c in CS::new(text, g).chars() {
+                let rest = &out[j..];
+                if c.is_whitespace() {
+                    if rest.starts_with(c.str) { pieces.push(c.str.to_string()); j += c.str.len(); }
+                } else if rest.starts_with(c.str) {
+                    pieces.push(c.str.to_string()); j += c.str.len();
+                } else if rest.starts_with(' ') && rest[1..].starts_with(c.str) {
+                    pieces.push(" ".to_string()); pieces.push(c.str.to_string()); j += 1 + c.str.len();
+                } else {
+                    return None;
+                }
+            }
+            if j != out.len() { return None; }
+            let got: Vec<String> = CS::new(out, g).chars().map(|c| c.str.to_string()).collect();
+            Some(got == pieces)
+        }
+
+        /// the statement of C14 at STRING level for one (clean) text; Err((class, message))
+        pub fn check_classified(text: &str, iw: f64, dw: f64, g: bool, seed: u64) -> Result<(), (String, String)> {
+            match check(text, iw, dw, g, seed) {
+                Ok(()) => Ok(()),
+                Err(e) => {
+                    let f = preprocessing(PreprocessingFnConfig::WhitespaceCorruption(Part::Input, iw, dw, g));
+                    let out = f(TrainData::new(text.to_string(), None), TextDataInfo { seed, ..Default::default() }).map(|(d, _)| input_of(&d)).unwrap_or_default();
+                    let class = if g && segmentation_preserved(text, &out, g) == Some(false) { "grapheme-resegmentation" } else { "other" };
+                    Err((class.to_string(), e))
+                }
+            }
+        }
+
+        /// the statement of C14 at STRING level for one (clean) text
+        pub fn check(text: &str, iw: f64, dw: f64, g: bool, seed: u64) -> Result<(), String> {
+            let f = preprocessing(PreprocessingFnConfig::WhitespaceCorruption(Part::Input, iw, dw, g));
+            let run = || -> Result<(String, String), String> {
+                let (d, _) = f(TrainData::new(text.to_string(), None), TextDataInfo { seed, ..Default::default() }).map_err(|e| e.to_string())?;
+                let dbg = format!("{:?}", d);
+                let t0 = dbg.rfind("\", target: \"").unwrap() + 12;
+                Ok((input_of(&d), unescape(&dbg[t0..dbg.len() - 3])))
+            };
+            let (out, target) = run()?;
+            let what = format!("corrupt_whitespace(iw={iw}, dw={dw}, graphemes={g}, seed={seed}) on {text:?} gave {out:?}");
+            if target != text { return Err(format!("{what}: target changed to {target:?}")); }
+            if run()?.0 != out { return Err(format!("{what}: not deterministic in (text, seed)")); }
+            if nonws(&out, g) != nonws(text, g) { return Err(format!("{what}: non-whitespace character sequence changed")); }
+            if crate::text::clean(&out, g) != out { return Err(format!("{what}: output is not whitespace-clean")); }
+            match operations(&out, text, g) {
+                Ok(ops) => {
+                    if ops.len() != CS::new(&out, g).len() { return Err(format!("{what}: {} labels for {} input characters", ops.len(), CS::new(&out, g).len())); }
+                    match repair(&out, &ops, g) {
+                        Ok(r) if r == text => {}
+                        other => return Err(format!("{what}: repair gave {other:?}")),
+                    }
+                }
+                Err(e) => return Err(format!("{what}: operations failed: {e}")),
+            }
+            if dw == 0.0 && count_ws(&out, g) < count_ws(text, g) { return Err(format!("{what}: whitespace disappeared with delete probability 0")); }
+            if iw == 0.0 && count_ws(&out, g) > count_ws(text, g) { return Err(format!("{what}: whitespace appeared with insert probability 0")); }
+            Ok(())
+        }
+
+        pub fn replay(input: &Value) -> Result<(), String> {
+            check(
+                input["text"].as_str().unwrap_or(""),
+                input["iw"].as_f64().unwrap_or(0.5),
+                input["dw"].as_f64().unwrap_or(0.5),
+                input["graphemes"].as_bool().unwrap_or(true),
+                input["seed"].as_u64().unwrap_or(0),
+            )
+        }
+
+        /// BOUND: every whitespace-clean text of at most 4 code points over the alphabet below (letters, space, CR, LF, a
+        /// control character, a combining mark, ZWJ, a Prepend character, a regional indicator, Hangul L and V jamo, an
+        /// emoji), both modes, probabilities (1,0) (0,1) (0.5,0.5), seeds 0..3
+        pub const ALPHABET: [&str; 13] = ["a", "b", " ", "\r", "\n", "\u{1}", "\u{301}", "\u{200d}", "\u{600}", "\u{1f1e9}", "\u{1100}", "\u{1161}", "\u{1f600}"];
+        /// bounded exploration: the first failing input of every class, and the number of cases run
+        pub fn search_all() -> (Vec<(Value, String, String)>, usize) {
+            let mut frontier = vec![String::new()];
+            let mut texts = vec![String::new()];
+            for _ in 0..4 {
+                let mut next = vec![];
+                for t in &frontier { for a in ALPHABET { next.push(format!("{t}{a}")); } }
+                texts.extend(next.iter().cloned());
+                frontier = next;
+            }
+            let mut found: Vec<(Value, String, String)> = vec![];
+            let mut cases = 0usize;
+            for g in [true, false] {
+                for t in &texts {
+                    if crate::text::clean(t, g) != *t { continue; }
+                    for (iw, dw) in [(1.0, 0.0), (0.0, 1.0), (0.5, 0.5)] {
+                        for seed in 0..3u64 {
+                            cases += 1;
+                            if let Err((class, e)) = check_classified(t, iw, dw, g, seed) {
+                                if !found.iter().any(|(_, _, c)| *c == class) {
+                                    found.push((json!({"text": t, "iw": iw, "dw": dw, "graphemes": g, "seed": seed}), e, class));
+                                }
+                            }
+                        }
+                    }
+                }
+            }
+            (found, cases)
+        }
+        pub fn search() -> Option<(Value, String)> {
+            search_all().0.into_iter().find(|(_, _, c)| c == "other").map(|(i, e, _)| (i, e))
+        }
+    }
+
     fn dispatch_replay(prop: &str, input: &Value) -> Result<(), String> {
         match prop {
             "C04" => c04::replay(input),
@@ -436,6 +590,7 @@ mod probes {
             "C07" => c07::replay(input),
             "C15" => c15::replay(input),
             "C13" => c13::replay(input),
+            "C14" => c14::replay(input),
             _ => Err(format!("no probe for {prop}")),
         }
     }
@@ -447,6 +602,7 @@ mod probes {
             "C07" => c07::search(),
             "C15" => c15::search(),
             "C13" => c13::search(),
+            "C14" => c14::search(),
             _ => None,
         }
     }
@@ -466,6 +622,18 @@ mod probes {
                     Ok(Err(e)) => println!("PROBE-FAIL {}", json!({"input": input, "violated": e})),
                     Err(_) => println!("PROBE-FAIL {}", json!({"input": input, "violated": "panic"})),
                 }
+            }
+            "bounded" => {
+                // bounded exploration (labelled bounded in the evidence): every failing class with its first input
+                let (found, cases) = match prop.as_str() {
+                    "C14" => c14::search_all(),
+                    _ => (vec![], 0),
+                };
+                for (input, e, class) in &found {
+                    println!("PROBE-FAIL {}", json!({"input": input, "violated": e, "class": class}));
+                }
+                println!("PROBE-STATS {}", json!({"cases": cases, "failing_classes": found.len()}));
+                if found.is_empty() && cases > 0 { println!("PROBE-OK"); }
             }
             "search" => match dispatch_search(&prop) {
                 Some((input, e)) => println!("PROBE-FAIL {}", json!({"input": input, "violated": e})),
